@@ -236,13 +236,11 @@ class ReedMullerCodeEncoder(LinearBlockCodeEncoder):
                 - Decoded message(s)
                 - Syndrome (difference between closest valid codeword and received word)
         """
-        # Make input a batch
-        if x.dim() == 1:
-            y2d = x.unsqueeze(0)
-            single = True
-        else:
-            y2d = x
-            single = False
+        # View the input as a batch of blocks of the code length (any leading dimensions, several blocks per row)
+        if x.shape[-1] % self.code_length != 0:
+            raise ValueError(f"Last dimension size {x.shape[-1]} must be a multiple of the code length {self.code_length}")
+        leading_dims = x.shape[:-1]
+        y2d = x.reshape(-1, self.code_length)
         device = y2d.device
 
         # Enumerate all possible messages (2^k of them)
@@ -263,9 +261,7 @@ class ReedMullerCodeEncoder(LinearBlockCodeEncoder):
         pred_cw = cws[best]  # (B, n)
         syndrome = (pred_cw != y2d).float()  # (B, n)
 
-        if single:
-            return decoded[0], syndrome[0]
-        return decoded, syndrome
+        return decoded.reshape(*leading_dims, -1), syndrome.reshape(*leading_dims, -1)
 
     def calculate_syndrome(self, y: torch.Tensor):
         """Return the syndrome (error pattern) for given codeword(s).
